@@ -657,7 +657,31 @@ def standin_factoring(tier, seed):
                 failures=len(fails), exhaustive=True, _fails=_uniq(fails))
 standin_factoring.prop = "C09"
 
-STANDINS = [standin_factoring, standin_density, standin_trajectories, standin_noise_models, standin_conversions, standin_final_density_scenarios]
+def standin_probabilistic_gates(tier, seed):
+    """gate.with_probability(p), plain and nested with two different probabilities (shared with C03): Kraus operators and mixture describe
+    rho -> p E(rho) + (1 - p) rho; and the density-matrix simulator applies that map"""
+    import cirq
+    from contracts.C03_gates import standin_probabilistic_gates as f
+
+    r = dict(f(tier, seed))
+    r["case"] = "probabilistic-gates"
+    fails = list(r.get("_fails", []))
+    cases = r["cases"]
+    q = cirq.LineQubit(0)
+    for sub, a_, b_ in ((cirq.X, 0.6, 0.8), (cirq.amplitude_damp(0.3), 0.25, 0.5), (cirq.H, 0.9, 0.3)):
+        cases += 1
+        g = sub.with_probability(a_).with_probability(b_)
+        rho0 = np.array([[0.7, 0.2 - 0.1j], [0.2 + 0.1j, 0.3]], dtype=np.complex128)
+        want = a_ * b_ * sum(k @ rho0 @ k.conj().T for k in cirq.kraus(sub)) + (1 - a_ * b_) * rho0
+        got = cirq.DensityMatrixSimulator(dtype=np.complex128).simulate(cirq.Circuit(g.on(q)), initial_state=rho0).final_density_matrix
+        if not np.allclose(got, want, atol=1e-8):
+            fails.append(dict(args=dict(gate=repr(g)[:300]), failed="probabilistic-gate-simulated", clause=f"the density-matrix simulator does not apply {a_} * {b_} E + (1 - {a_} * {b_}) identity for a nested probabilistic gate"))
+    r.update(cases=cases, distinct=cases, failures=len(fails), _fails=fails[:3])
+    return r
+standin_probabilistic_gates.prop = "C09"
+
+
+STANDINS = [standin_probabilistic_gates, standin_factoring, standin_density, standin_trajectories, standin_noise_models, standin_conversions, standin_final_density_scenarios]
 NOT_COVERED = ["device-derived noise (NoiseModelFromNoiseProperties / superconducting qubit properties): not covered", "qudit channels: only via C02/C04 stand-ins",
                "entanglement fidelity / measures (qis/measures.py): not covered"]
 EXPLANATION = "simulators end to end (density matrix, exact enumeration of state-vector trajectories, noise models, numeric conversions): bounded stand-ins. "
